@@ -29,13 +29,38 @@ class FunctionalSpsolve:
 
     def __init__(self):
         self.cache = {}
+        self.origin = {}     # fresh symbol name -> (call key, position, data nodes, b nodes)
 
     def __call__(self, data, indices, indptr, b, **kw):
         d, bb = sym.to_obj(data), sym.to_obj(b)
-        key = (tuple(n.id for n in d.reshape(-1)), np.asarray(indices).tobytes(), np.asarray(indptr).tobytes(), tuple(n.id for n in bb.reshape(-1)))
+        struct = (np.asarray(indices).tobytes(), np.asarray(indptr).tobytes())
+        key = (tuple(n.id for n in d.reshape(-1)), struct, tuple(n.id for n in bb.reshape(-1)))
         if key not in self.cache:
-            self.cache[key] = sym.symvec(f"sp{len(self.cache)}_", len(bb))
+            y = sym.symvec(f"sp{len(self.cache)}_", len(bb))
+            self.cache[key] = y
+            for k, n in enumerate(y):
+                self.origin[n.args[0]] = (struct, k, list(d.reshape(-1)), list(bb.reshape(-1)))
         return self.cache[key]
+
+    def resolver(self, a, b):
+        """function congruence: y_k = spsolve(A, b)_k and y'_k = spsolve(A', b')_k are equal
+        when the (same-structure) matrices and right-hand sides are."""
+        oa, ob = self.origin.get(a.args[0]), self.origin.get(b.args[0])
+        if oa is None or ob is None or oa[0] != ob[0] or oa[1] != ob[1]:
+            return None
+        return list(zip(oa[2], ob[2])) + list(zip(oa[3], ob[3]))
+
+    def deep_support(self, nodes):
+        """variables a result depends on, looking through the stub"""
+        seen, out, todo = set(), set(), list(sym.support(*nodes))
+        while todo:
+            n = todo.pop()
+            if n in seen: continue
+            seen.add(n)
+            o = self.origin.get(n)
+            if o is None: out.add(n)
+            else: todo += list(sym.support(*o[2], *o[3]))
+        return out
 
 
 def _setup(inst):
@@ -52,6 +77,7 @@ def _setup(inst):
 def _encode(fn, args, vs):
     from .c01 import named_kernels, KERNELS
     stub = _encode.stub
+    zoo.refresh()
     if vs == "jaxley.stone":
         with named_kernels():
             return interp.encode(fn, args, stubs={"spsolve": stub}, kernels=KERNELS, return_interp=True)
